@@ -12,7 +12,7 @@ from guppylang_internals.engine import ENGINE
 from guppylang_internals.error import GuppyError
 
 PRE = """from guppylang import guppy
-from guppylang.std.builtins import array, nat
+from guppylang.std.builtins import array, nat, comptime
 from guppylang.std.quantum import qubit
 """
 DEFS = """@guppy.struct
@@ -35,6 +35,11 @@ def pool(depth):
         nxt.append("tuple[()]")
         for a in cur:
             nxt += [f"tuple[{a}]", f"array[{a}, 2]", f"list[{a}]", f"G[{a}]", f"H[{a}, 3]"]
+        for a in cur[:5]:
+            # boundary sizes: the empty and the one-element array
+            nxt += [f"array[{a}, 0]", f"array[{a}, 1]", f"H[{a}, 0]"]
+            # the same sizes written as comptime expressions (a different parser path; they PRINT as literals)
+            nxt += [f"array[{a}, comptime(0)]", f"array[{a}, comptime(1 + 1)]"]
         small = cur[:6] + cur[-3:]
         for a, b in itertools.product(small, repeat=2):
             nxt.append(f"tuple[{a}, {b}]")
